@@ -328,11 +328,16 @@ class FilterbankBlock(BaseBlock):
         """
         dm_arr = dm + np.linspace(-dm, dm, dmsteps)
         dm_delays = self.header.get_dmdelays(dm_arr, ref_freq=ref_freq)
+        # Dedispersing advances each channel by its delay, as in dedisperse()
         if only_valid_samples:
-            new_ar = kernels.dmt_block_valid(self.data, dm_delays)
+            new_ar = kernels.dmt_block_valid(self.data, -dm_delays)
         else:
-            new_ar = kernels.dmt_block(self.data, dm_delays)
-        return DMTBlock(new_ar, self.header.new_header({"nchans": 1}), dm_arr)
+            new_ar = kernels.dmt_block(self.data, -dm_delays)
+        return DMTBlock(
+            new_ar,
+            self.header.new_header({"nchans": 1, "nsamples": new_ar.shape[1]}),
+            dm_arr,
+        )
 
     def to_file(self, filename: str | None = None) -> str:
         """Write the data to file.
